@@ -124,11 +124,13 @@ Commission(c, exec, dq) == Add(Fixed, Mul(Prop, RAbs(Mul(Mul(exec, dq), RM(Mult[
 \* a Trade can only be built from a two-sided quote and a non-zero quantity
 TradeBuildable(st, c, dq) == st.bid[c] # NaN /\ st.ask[c] # NaN /\ ~IsZero(dq)
 
-TransactF(st, c, dq) ==
-    IF ~TradeBuildable(st, c, dq) THEN [st |-> st, out |-> "error", comm |-> Zero, exec |-> NaN]
+\* Broker.transact of a Trade that carries its own bid / ask (tb, ta): the prices of the book when the order was priced,
+\* which need not be the book's prices when it is executed
+TransactAtF(st, c, dq, tb, ta) ==
+    IF tb = NaN \/ ta = NaN \/ IsZero(dq) THEN [st |-> st, out |-> "error", comm |-> Zero, exec |-> NaN]
     ELSE
     LET s1     == MarkF(st, c)
-        exec   == AcqPrice(s1, c, Sign(dq))
+        exec   == IF Sign(dq) > 0 THEN ta ELSE tb
         old    == s1.pos[c]
         raw    == Add(old, dq)
         \* Broker._epsilon: a residual position below epsilon is dropped (the margin is still sized on the raw
@@ -147,6 +149,9 @@ TransactF(st, c, dq) ==
                              !.pos[c] = new,
                              !.ref[c] = exec]
     IN  [st |-> MarkF(s2, c), out |-> "ok", comm |-> comm, exec |-> exec]
+
+\* the usual case: the Trade is priced on the current book
+TransactF(st, c, dq) == TransactAtF(st, c, dq, st.bid[c], st.ask[c])
 
 -----------------------------------------------------------------------------
 \* broker.py : accrued_interest, on a clock counted in whole years of 365 days so that the
